@@ -15,7 +15,14 @@ unless the report is empty and empty reports are not to be sent.
 Items are abstracted to their encoded sizes: an attribute report is written atomically by
 `HandlerInvoker::process_read` / `send_array_items`, an event report by `EventReader::process_read`
 (on any error the buffer is rewound to the position before the report), so a report is either
-completely in a chunk or not at all.  Import-free (apart from the generated constants).
+completely in a chunk or not at all.  A report is thereby identified with its kind, the id of its
+attribute (a list element: + its list index; an event: its number) and its encoded size — not with
+its bytes; there is no write position inside a report, no rewind position, no list-index variable
+here.  For the attribute section that level — bytes of the `WriteBuf`, writes that fail half way,
+the rewind positions, the list index carried across chunks, the loops as loops — is
+`Model/ChunkCursor.lean`, proved to refine this model (`Lemmas/ChunkCursor.lean`: `cputAttrs_sim`).
+At the end of this file: the token view of a message (`msgToks`, `wellFormed`).
+Import-free (apart from the generated constants).
 -/
 namespace Chunk
 
